@@ -15,7 +15,7 @@ import time
 import traceback
 
 AS_LIMIT = 2 * 1024**3
-SOFT_SECONDS = 4.0  # per case, raised as an exception inside the worker
+SOFT_SECONDS = 4.0  # CPU seconds per case (ITIMER_PROF: independent of how busy the machine is), raised inside the worker
 HARD_SECONDS = 20.0  # per case, the parent kills the worker
 
 
@@ -43,7 +43,7 @@ def _worker(conn, func, cases, start, soft):
         resource.setrlimit(resource.RLIMIT_AS, (AS_LIMIT, AS_LIMIT))
     except Exception:
         pass
-    signal.signal(signal.SIGALRM, _alarm)
+    signal.signal(signal.SIGPROF, _alarm)
     # third-party parsers print warnings for corrupt input: the worker's output is not part of the verdict
     try:
         null = os.open(os.devnull, os.O_WRONLY)
@@ -58,7 +58,7 @@ def _worker(conn, func, cases, start, soft):
         rss0 = resource.getrusage(resource.RUSAGE_SELF).ru_maxrss
         t0 = time.process_time()
         w0 = time.time()
-        signal.setitimer(signal.ITIMER_REAL, soft)
+        signal.setitimer(signal.ITIMER_PROF, soft)
         # what the call returned / raised stays referenced until the file table has been read: a file
         # the loader forgot to close must not be closed for it by the reference count dropping to zero
         keep = None
@@ -75,7 +75,7 @@ def _worker(conn, func, cases, start, soft):
         except BaseException as e:  # SystemExit, KeyboardInterrupt, GeneratorExit ...
             out = ("base_exception", type(e).__name__)
         finally:
-            signal.setitimer(signal.ITIMER_REAL, 0)
+            signal.setitimer(signal.ITIMER_PROF, 0)
         cpu = time.process_time() - t0
         wall = time.time() - w0
         fds1 = _fd_table()
